@@ -231,7 +231,11 @@ def run(pid, tier, seed, work, a, t0):
                 failures.append((r, c, o))
             nfail += 1
         nund = len([o for o in undecided if pipeline.classify(o) != 'R'])
-        if is_bounded:
+        if r.get('fallback'):
+            print('  %s/%s: %s' % (r['unit'], r['proof'], r['fallback']))
+            bounded.append({'proof': r['proof'], 'unit': r['unit'], 'function': r['enforce'], 'bound': 'bounded search, unwind %d' % pipeline.SEARCH_UNWIND,
+                            'obligations': nobl, 'failed': nfail, 'note': r['fallback']})
+        elif is_bounded:
             bounded.append({'proof': r['proof'], 'unit': r['unit'], 'function': r['enforce'], 'bound': 'unwind %s' % (p['loops'][1],),
                             'obligations': nobl, 'failed': nfail, 'note': p.get('bound_note', 'loops unwound completely (unwinding assertions hold)')})
         if not is_bounded or p.get('complete'):
